@@ -134,3 +134,66 @@ theorem all0_all1_wrong :
 example : ((Expr.mkOr (.not (.lit 1)) (.lit 3) : Expr Nat).derivative [3]).den (fun n => n == 1) = true := by decide
 
 end BoolFn.C07
+
+/-! ## A set that contains one variable the function does not depend on
+
+`law.deriv.many` (correspondence) differentiates a small expression by one of its variables together
+with many names it does not mention. The result is the constant false — for every function object,
+every number of extra names and every position of the foreign name in the set. -/
+namespace BoolFn.C07
+open BoolFn
+variable {α : Type} [DecidableEq α]
+
+theorem upd_same (ρ : α → Bool) (x : α) (a b : Bool) : upd (upd ρ x a) x b = upd ρ x b := by
+  funext y; simp only [upd]; split <;> rfl
+
+/-- the nested expansion of a function that ignores `x` ignores `x` -/
+theorem nested_ignores {F : Type} (bop : Bool → Bool → Bool) (den : (α → Bool) → F → Bool) (f : F) (x : α)
+    (hind : ∀ ρ b, den (upd ρ x b) f = den ρ f) :
+    ∀ (vs : List α) (ρ : α → Bool) (b : Bool), nested bop den vs f (upd ρ x b) = nested bop den vs f ρ := by
+  intro vs
+  induction vs with
+  | nil => intro ρ b; exact hind ρ b
+  | cons y ys ih =>
+    intro ρ b
+    simp only [nested]
+    by_cases hxy : x = y
+    · subst hxy
+      -- the branch values do not depend on the earlier value of `x`
+      rw [upd_same, upd_same]
+    · rw [upd_comm ρ x y b false hxy, upd_comm ρ x y b true hxy, ih, ih]
+
+/-- **one ignored variable in the set makes the derivative vanish** (parity over the assignments
+    of the set: the two halves that differ only in the ignored variable cancel) -/
+theorem nested_xor_foreign {F : Type} (den : (α → Bool) → F → Bool) (f : F) (x : α)
+    (hind : ∀ ρ b, den (upd ρ x b) f = den ρ f) :
+    ∀ (vs : List α), x ∈ vs → ∀ ρ, nested (· != ·) den vs f ρ = false := by
+  intro vs
+  induction vs with
+  | nil => intro h; cases h
+  | cons y ys ih =>
+    intro hx ρ
+    simp only [nested]
+    by_cases hxy : x = y
+    · subst hxy
+      rw [nested_ignores (· != ·) den f x hind ys ρ false, nested_ignores (· != ·) den f x hind ys ρ true]
+      simp
+    · have hin : x ∈ ys := by
+        rcases List.mem_cons.mp hx with h | h
+        · exact absurd h hxy
+        · exact h
+      rw [ih hin, ih hin]; rfl
+
+/-- expressions: differentiating by a duplicate-free set that contains a variable the expression does
+    not mention gives the constant false -/
+theorem expr_derivative_foreign (vs : List α) (hnd : vs.Nodup) (e : Expr α) (x : α) (hx : x ∈ vs)
+    (hf : x ∉ e.vars) (ρ : α → Bool) : (e.derivative vs).den ρ = false := by
+  rw [expr_derivative vs hnd]
+  apply nested_xor_foreign Expr.den e x _ vs hx
+  intro σ b
+  apply Expr.den_congr
+  intro y hy
+  have : x ≠ y := fun h => hf (h ▸ hy)
+  simp [upd, this]
+
+end BoolFn.C07
